@@ -5,7 +5,8 @@
    op      := 'L' decl*          create a module from the declarations (in order), finish it, load it
             | 'X' n a            MIR_load_external ("n<n>", ext function number a)
             | 'R' 0|1            MIR_set_func_redef_permission
-            | 'K' mask iface     MIR_link (iface: i = interpreter, g = generator, l = lazy generator);
+            | 'K' mask iface     MIR_link (iface: i = interpreter, g = generator, l = lazy generator,
+                                 q = interpreter, but no accessor is executed after this link);
                                  the import resolver resolves name n iff bit n of mask is set
    decl    := 'i'n | 'e'n | 'f'n | 'F'n | 'B'n | 'D'n | 'P'n   import / export / forward / func / big func /
                                                         data / proto
@@ -342,6 +343,8 @@ static int do_op (char *op) {
     sscanf (op + 1, "%u %c", &mask, &iface);
     res_mask = mask;
     res_log[0] = 0;
+    int quiet = iface == 'q'; /* interpreter interface, but nothing is executed after this link */
+    if (quiet) iface = 'i';
     if (iface != 'i' && iface != 'n' && !gen_inited) {
       MIR_gen_init (ctx);
       gen_inited = 1;
@@ -364,7 +367,7 @@ static int do_op (char *op) {
       }
     if (iface == 'n')
       print_bindings (1);
-    else
+    else if (!quiet)
       print_bindings (2);
     break;
   }
